@@ -32,6 +32,11 @@ T = {
          "For every word of seven themed alphabets (formatting/adoption, tables, select, prologue/head/frameset, foreign content, blocks/lists, text modes) and their union, up to the stated depth modulo state equivalence, in document mode and in fragment mode for 10 containers, the real parser is run with all six builder configurations and the canonical trees (read by direct traversal) must be equal; the etree root form must equal the html subtree of the full tree.",
          "no reference model: a defect shared by all builders is invisible here (C01 covers that); attribute order is compared as a mapping; letters containing '{' or ':' in names are not in the alphabets",
          "6/C04"),
+ "C05": ("model_checking",
+         "deviation-bounded exhaustive exploration of the environment: the harness owns every read() answer; all 2^(n-1) segmentations of every text <=4 (thorough 5) characters over a 16-letter boundary-sensitive alphabet, all placements of <=2 cuts in multi-character-token words, whole-input sources x internal chunk sizes {1,2,3,5}, and for 38 encodings every byte segmentation of short inputs through bytes / BytesIO / non-seekable short-read sources (encoding declared certain by transport_encoding or by a BOM); differential oracle against the one-str parse",
+         "A deviation is a cut between two reads; with read sizes capped by the requested size, the set of all segmentations also realises every internal chunk size. Every schedule is executed on the real input stream + tokenizer + parser and must give the same canonical tree and the same (code, line, col) error list as the undisturbed run.",
+         "Python's codecs are trusted for decoding; inputs whose bytes spell a BOM that is not meant as one are excluded; placement of stream-level invalid-codepoint reports is a listed known finding",
+         "6/C05"),
  "C11": ("model_checking",
          "explicit-state BFS over markup-token words, key = (suspended parser state, digest of the complete final tree); every explored word is built with etree (full tree / root element / fragment) and dom (document / documentElement / fragment), namespacing on and off, and walked by the real walkers from each start node; oracle = lint filter + own well-formedness checker + tree rebuilt from the stream == direct traversal + etree stream == dom stream",
          "Walkers are pure traversals, so coverage is counted in distinct complete trees: all trees reachable by words of eight themed alphabets up to the stated depth (document mode and one fragment container per theme) are walked 12 ways each. The rebuilt-tree oracle is independent of html5lib (direct traversal of minidom / ElementTree objects).",
